@@ -60,6 +60,10 @@ CLAIMED = {
  'C15': dict(tech="TLC: width-8 CRC laws for reflected polynomials (table = bitwise division, backward o forward = id) and the CRC-32 forging postcondition model-checked; TLC trace validation of crc32, generic CRCs of widths 8..64, backward computation and crc32_fix/crc32_fix_pos (judged by postcondition)",
              text="crc32 on data classes and seeded data up to 300 bytes; crc(data, crc_table(P), init, final) for widths {8,12,16,24,31,32,33,40,64} with catalogue and random reflected polynomials and init/final classes, recomputed bitwise by TLC; crc_back_pos against the forward register at every tested position; crc32_fix and crc32_fix_pos at EVERY position of short data for target classes {0,1,2^31,2^32-1,random}: same length, only the 4-byte window differs, CRC-32 equals the target.",
              ref="DESIGN.md section 7 C15"),
+
+ 'C17': dict(tech="TLC: MD6 mode-of-operation plan checked for 0..70 leaf blocks and L in {0,1,2,3,4,64} (unique node ids, z only on the last node, padding counts, heights); TLC trace validation recomputing every MD6 digest from the TLA+ transcription of the MD6 report (validated on official and published vectors)",
+             text="Digest sizes {1,8,160,224,256,384,511,512}, key lengths {0,1,63,64}, L in {0,1,2,3,64}, round counts {1..5, default}, message sizes 0, 1, the 384/512-byte boundaries, 2..4, 5..16, 17+ (33, 65 in thorough) leaf blocks, every bitlen mod 8, over-long bit length; rounds set on the object so that big trees stay affordable for TLC.  Content is seeded.",
+             ref="DESIGN.md section 7 C17"),
 }
 PENDING = "check not built yet in this tree (specification modules are being written; see DESIGN.md section 12 build order) - not claimed until its quick command runs clean"
 def main():
